@@ -197,7 +197,9 @@ def find_dirs(ctx):
     ctx.rule(R, 'every directory walked by a cached find_files is added to '
              'find_dirs, the depfile is requested, both backends write the '
              'depfile from find_dirs, Make includes it and Ninja names it as '
-             'the regenerate rule\'s depfile')
+             'the regenerate rule\'s depfile; the lazy re-check records the '
+             'directories whenever it walks; both hooks save (or remove) the '
+             'cache file on every path')
     F = _facts(ctx)
     ff = F.fn(FIND + '_find_files')
     aps = [e for e in F.effects(ff, lambda e: e.name == 'append', depth=0)
@@ -355,7 +357,9 @@ def cache_replay(ctx, check_order=False):
              'field of a FindCacheEntry that the miss path records: found '
              'entries through the caller\'s file/dir types, extra (not_now) '
              'entries as generic files/directories, both with the caller\'s '
-             'dist flag')
+             'dist flag; the saved cache is all or nothing (only '
+             'FindCacheFile.save catches SerializationError, and then removes '
+             'the file)')
     repo = ctx.repo
     F = _facts(ctx)
     fc = repo.cls(FIND + 'FindCache')
